@@ -240,3 +240,13 @@ Theorem C11_rpm_differs_from_reference :
   Spec.Rpm.spec_cmp $"1.0^git1" $"1.0.1" = Some Lt /\ v_cmp Rpm.Entry.v $"1.0^git1" $"1.0.1" = Some Gt.
 Proof. vm_compute. repeat split; reflexivity. Qed.
 Print Assumptions C11_rpm_differs_from_reference.
+
+(* ====== ties to the source: BEGIN (written by bin/mkties) ====== *)
+(* The Go functions named here are translated into Gallina from /repo's source on every run
+   (tools/gen/code.go -> Gen/Code/<Eco>.v); Tie/<Eco>.v, Tie/<Eco>Range.v prove each translation equal to the
+   model the theorems above speak about.  If the code changes so that a tie no longer holds,
+   this file no longer checks. *)
+From Verif.Tie Require Rpm.
+Definition C11_tie_rpm_compare := Verif.Tie.Rpm.tie_rpm_compare.
+Print Assumptions C11_tie_rpm_compare.
+(* ====== ties to the source: END ====== *)
